@@ -117,6 +117,8 @@ def run_k2(facts, ctx, inv=None, watch=()):
     res.post_update2 = None
     res.gate_preds = []
     I.side["gate_preds"] = res.gate_preds
+    res.atom_vals = {}
+    I.side["atom_vals"] = res.atom_vals
     msg = frame(ctx["L"], dict(ctx.get("fixed") or {}))
     if ctx.get("via_line", True):
         # the frame reaches the decoder as a text line: `digits` hex digits (a 12-digit receiver time stamp may precede
